@@ -78,6 +78,8 @@ func (t *itr) leanType(tp types.Type) string {
 		case types.Bool, types.UntypedBool:
 			return "Bool"
 		}
+	case *types.TypeParam:
+		return u.Obj().Name()
 	case *types.Interface:
 		return "GoAny"
 	case *types.Named:
@@ -92,6 +94,13 @@ func (t *itr) leanType(tp types.Type) string {
 			return "Unit" // a field no translated method touches
 		}
 		if t.structs[n] {
+			if ta := u.TypeArgs(); ta != nil && ta.Len() > 0 {
+				args := []string{}
+				for i := 0; i < ta.Len(); i++ {
+					args = append(args, paren(t.leanType(ta.At(i))))
+				}
+				return "(" + n + " " + strings.Join(args, " ") + ")"
+			}
 			return n
 		}
 		if _, ok := u.Underlying().(*types.Struct); ok {
@@ -174,6 +183,11 @@ func (t *itr) expr(e ast.Expr, pre *[]string) string {
 			return x.Name
 		}
 		if x.Name == "nil" {
+			if tv, ok := t.p.info.Types[x]; ok && tv.Type != nil {
+				if isSliceT(tv.Type) {
+					return "(default : " + t.leanType(tv.Type) + ")" // the nil slice
+				}
+			}
 			return "none"
 		}
 		return x.Name
@@ -205,6 +219,12 @@ func (t *itr) expr(e ast.Expr, pre *[]string) string {
 					return "(" + t.expr(x.X, pre) + ").isNone"
 				}
 				return "(" + t.expr(x.X, pre) + ").isSome"
+			}
+			if isSliceT(t.typeOf(x.X)) {
+				if x.Op == token.EQL {
+					return "(GoSlice.isNil " + t.expr(x.X, pre) + ")"
+				}
+				return "(!(GoSlice.isNil " + t.expr(x.X, pre) + "))"
 			}
 			return t.fail("comparison of a non-interface value with nil")
 		}
@@ -621,7 +641,11 @@ func (t *itr) stmts(list []ast.Stmt, ind string) []string {
 		if len(x.Results) == 1 {
 			val = t.expr(x.Results[0], &pre)
 		} else if len(x.Results) > 1 {
-			val = t.fail("multiple results")
+			vs := []string{}
+			for _, r := range x.Results {
+				vs = append(vs, t.expr(r, &pre))
+			}
+			val = "(" + strings.Join(vs, ", ") + ")"
 		}
 		emit(pre)
 		return append(out, ind+t.ret(val))
@@ -696,7 +720,12 @@ func (t *itr) stmts(list []ast.Stmt, ind string) []string {
 		}
 		vals := make([]string, len(x.Rhs))
 		for i, r := range x.Rhs {
-			v := t.expr(r, &pre)
+			v := ""
+			if id, ok := r.(*ast.Ident); ok && id.Name == "nil" && isSliceT(t.typeOf(x.Lhs[i])) {
+				v = "(default : " + t.leanType(t.typeOf(x.Lhs[i])) + ")" // the nil slice
+			} else {
+				v = t.expr(r, &pre)
+			}
 			if len(x.Rhs) > 1 {
 				n := t.tmp("v")
 				pre = append(pre, fmt.Sprintf("let %s := %s", n, v))
@@ -805,12 +834,22 @@ func (t *itr) emitStruct(sb *strings.Builder, name string) {
 		return
 	}
 	pos := t.p.fset.Position(o.Pos())
-	fmt.Fprintf(sb, "/-- %s:%d `%s` -/\nstructure %s where\n", relPath(pos.Filename), pos.Line, name, name)
+	tparams := ""
+	if nt, ok := o.Type().(*types.Named); ok && nt.TypeParams() != nil {
+		for i := 0; i < nt.TypeParams().Len(); i++ {
+			tparams += fmt.Sprintf(" (%s : Type)", nt.TypeParams().At(i).Obj().Name())
+		}
+	}
+	fmt.Fprintf(sb, "/-- %s:%d `%s` -/\nstructure %s%s where\n", relPath(pos.Filename), pos.Line, name, name, tparams)
 	for i := 0; i < st.NumFields(); i++ {
 		f := st.Field(i)
 		fmt.Fprintf(sb, "  %s : %s\n", f.Name(), t.leanType(f.Type()))
 	}
-	fmt.Fprintf(sb, "deriving Repr, Inhabited, DecidableEq\n\n")
+	if tparams != "" {
+		fmt.Fprintf(sb, "deriving Repr, Inhabited\n\n")
+	} else {
+		fmt.Fprintf(sb, "deriving Repr, Inhabited, DecidableEq\n\n")
+	}
 }
 
 func (t *itr) emitFunc(sb *strings.Builder, goName string) {
@@ -822,6 +861,16 @@ func (t *itr) emitFunc(sb *strings.Builder, goName string) {
 	t.fresh = 0
 	t.recv, t.recvTp = "", ""
 	params := []string{}
+	addTP := func(tp *types.TypeParamList) {
+		for i := 0; tp != nil && i < tp.Len(); i++ {
+			params = append(params, fmt.Sprintf("{%s : Type} [Inhabited %s]", tp.At(i).Obj().Name(), tp.At(i).Obj().Name()))
+		}
+	}
+	if obj, ok := t.p.info.Defs[fd.Name].(*types.Func); ok {
+		sig := obj.Type().(*types.Signature)
+		addTP(sig.RecvTypeParams())
+		addTP(sig.TypeParams())
+	}
 	if fd.Recv != nil {
 		r := fd.Recv.List[0]
 		if _, ok := r.Type.(*ast.StarExpr); ok {
@@ -837,11 +886,20 @@ func (t *itr) emitFunc(sb *strings.Builder, goName string) {
 		}
 	}
 	resT := ""
-	if fd.Type.Results != nil && len(fd.Type.Results.List) == 1 && len(fd.Type.Results.List[0].Names) <= 1 {
-		resT = t.leanType(t.typeOf(fd.Type.Results.List[0].Type))
-	} else if fd.Type.Results != nil && len(fd.Type.Results.List) > 0 {
-		t.fail("unsupported signature: %s", goName)
-		return
+	if fd.Type.Results != nil {
+		rts := []string{}
+		for _, f := range fd.Type.Results.List {
+			if len(f.Names) > 0 {
+				t.fail("named results are not supported: %s", goName)
+				return
+			}
+			rts = append(rts, t.leanType(t.typeOf(f.Type)))
+		}
+		if len(rts) == 1 {
+			resT = rts[0]
+		} else if len(rts) > 1 {
+			resT = "(" + strings.Join(rts, " × ") + ")"
+		}
 	}
 	ret := "Unit"
 	switch {
@@ -867,7 +925,7 @@ func genPools(repo string, tiny bool) (string, []string) {
 	if tiny {
 		ns, mns, imp = "ArcheGen.P64", "ArcheGen.M64", "ArcheGen.Build64"
 	}
-	t := &itr{p: ecs, structs: map[string]bool{"Entity": true, "entityPool": true, "bitPool": true, "lockMask": true, "Resources": true, "bitSet": true},
+	t := &itr{p: ecs, structs: map[string]bool{"Entity": true, "entityPool": true, "bitPool": true, "lockMask": true, "Resources": true, "bitSet": true, "idMap": true},
 		opaque: map[string]bool{"componentRegistry": true}, maskNS: mns}
 	var sb strings.Builder
 	fmt.Fprintf(&sb, "/- GENERATED by /verif/extract (imperative translator) from the Go source of /repo — do not edit. -/\nimport %s\nset_option linter.unusedVariables false\nnamespace %s\nopen ArcheGen\n\n", imp, ns)
@@ -876,7 +934,7 @@ func genPools(repo string, tiny bool) (string, []string) {
 			fmt.Fprintf(&sb, "def MaskTotalBits : Nat := %s\n\n", k.Val().ExactString())
 		}
 	}
-	for _, s := range []string{"Entity", "entityPool", "bitPool", "lockMask", "Resources", "bitSet"} {
+	for _, s := range []string{"Entity", "entityPool", "bitPool", "lockMask", "Resources", "bitSet", "idMap"} {
 		t.emitStruct(&sb, s)
 	}
 	for _, f := range []string{
@@ -886,6 +944,7 @@ func genPools(repo string, tiny bool) (string, []string) {
 		"lockMask.Lock", "lockMask.Unlock", "lockMask.IsLocked", "lockMask.Reset",
 		"Resources.Add", "Resources.Remove", "Resources.Get", "Resources.Has", "Resources.reset",
 		"bitSet.Get", "bitSet.Set", "bitSet.Reset", "bitSet.ExtendTo",
+		"newIDMap", "idMap.Get", "idMap.Set", "idMap.Remove",
 	} {
 		t.emitFunc(&sb, f)
 	}
